@@ -19,7 +19,9 @@ SkipOn(s) == s \in {"true", "strTrue"}
 \* cfgs: sequence of [ca, skip, interval, roots] in load order (duplicates kept: they must share the object).
 \* roots is the SET of contents the configuration may hold: between a rewrite and the next elapsed interval the real
 \* watcher may or may not have picked the new content up, so both are possible; every observation narrows the set.
-Usable(c) == c \in {"ca1", "ca2"}
+Usable(c) == c \in {"ca1", "ca2", "bundle"}
+\* which servers a content makes trusted: a bundle holds both authorities; an empty or unusable file none
+Trusts(r, ca) == r = ca \/ r = "bundle"
 NewCfg == [ca |-> E.ca, skip |-> E.skip, interval |-> E.interval,
            roots |-> IF E.ca = "inline1" THEN {"ca1"} ELSE IF E.ca = "file" THEN {file} ELSE {"none"}]
 Same(a, b) == a.ca = b.ca /\ SkipOn(a.skip) = SkipOn(b.skip) /\ a.interval = b.interval
@@ -33,11 +35,11 @@ After ==
     [] OTHER -> cfgs
 
 Insecure(c) == c.ca = "none" /\ SkipOn(c.skip)
-Consistent(c, o, r) == (o.ca1 = (Insecure(c) \/ r = "ca1")) /\ (o.ca2 = (Insecure(c) \/ r = "ca2"))
+Consistent(c, o, r) == (o.ca1 = (Insecure(c) \/ Trusts(r, "ca1"))) /\ (o.ca2 = (Insecure(c) \/ Trusts(r, "ca2")))
 \* the two handshakes of one observation are made one after the other: while a refresh is possible they may see different roots
-Explained(c, o) == (\E r \in c.roots : o.ca1 = (Insecure(c) \/ r = "ca1")) /\ (\E r \in c.roots : o.ca2 = (Insecure(c) \/ r = "ca2"))
+Explained(c, o) == (\E r \in c.roots : o.ca1 = (Insecure(c) \/ Trusts(r, "ca1"))) /\ (\E r \in c.roots : o.ca2 = (Insecure(c) \/ Trusts(r, "ca2")))
 \* the same for a client that was built when the configuration was loaded and has been kept since
-ExplainedKept(c, o) == (\E r \in c.roots : o.ca1Kept = (Insecure(c) \/ r = "ca1")) /\ (\E r \in c.roots : o.ca2Kept = (Insecure(c) \/ r = "ca2"))
+ExplainedKept(c, o) == (\E r \in c.roots : o.ca1Kept = (Insecure(c) \/ Trusts(r, "ca1"))) /\ (\E r \in c.roots : o.ca2Kept = (Insecure(c) \/ Trusts(r, "ca2")))
 \* every observation narrows the possibilities to what was seen; the current usable content of the file stays possible
 \* for a refreshing configuration, because its watcher may pick it up at any moment
 Narrow(a, obs, cur) == [i \in DOMAIN a |->
@@ -59,6 +61,8 @@ Causes ==
                ELSE IF c.ca = "none" THEN "skip-verify-not-honoured"
                ELSE "trusted-cas-differ:" \o c.ca \o ":" \o E.op})
      \cup (IF badKept # {} THEN {"client-built-before-the-rotation-does-not-follow-it"} ELSE {})
+     \* the system roots stay trusted whatever CA is configured, loaded or rotated in
+     \cup (IF \E i \in DOMAIN a : ~obs[i].sys THEN {"system-roots-not-trusted"} ELSE {})
      \cup (IF \E i, j \in DOMAIN a : i < j /\ Same(a[i], a[j]) /\ obs[i].ptr # "nil" /\ obs[j].ptr # "nil" /\ obs[i].ptr # obs[j].ptr THEN {"identical-settings-do-not-share-one-configuration"} ELSE {})
      \cup (IF E.aliveWatchers > Cardinality({[ca |-> a[i].ca, s |-> SkipOn(a[i].skip), n |-> a[i].interval] : i \in {j \in DOMAIN a : Refreshing(a[j])}})
            THEN {"superseded-watcher-still-running"} ELSE {})
@@ -66,7 +70,7 @@ Causes ==
 Init == l = 1 /\ file = "ca1" /\ pending = FALSE /\ cfgs = <<>> /\ sc = "none" /\ skip = FALSE /\ viol = {} /\ fired = <<>>
 Next ==
   /\ l <= Len(Trace) /\ l' = l + 1
-  /\ CASE E.ev = "treset" -> file' = "ca1" /\ pending' = FALSE /\ cfgs' = <<>> /\ sc' = E.scenario /\ skip' = FALSE /\ fired' = Bump(fired, "scenarios") /\ UNCHANGED viol
+  /\ CASE E.ev = "treset" -> file' = E.content /\ pending' = FALSE /\ cfgs' = <<>> /\ sc' = E.scenario /\ skip' = FALSE /\ fired' = Bump(fired, "scenarios") /\ UNCHANGED viol
        [] E.ev = "tev" ->
             IF skip THEN UNCHANGED <<file, pending, cfgs, sc, skip, viol, fired>>
             ELSE /\ file' = IF E.op = "rewrite" THEN E.content ELSE file
